@@ -18,7 +18,8 @@ from .. import repo
 from ..common import AnalysisError, parse_py
 from .c17 import Crash, EvalError, Marker, Raised, SourceSelf, _mini_eval
 
-KINDS = ("NAME", "OP", "WS", "NL", "NEWLINE", "COMMENT", "STRING", "ERRORTOKEN", "ENDMARKER", "MACRO_PARAM", "INDENT", "DEDENT", "NUMBER")
+KINDS = ("NAME", "OP", "WS", "NL", "NEWLINE", "COMMENT", "STRING", "ERRORTOKEN", "ENDMARKER", "MACRO_PARAM", "INDENT", "DEDENT", "NUMBER",
+         "FSTRING_START", "FSTRING_MIDDLE", "FSTRING_END", "SEARCH_PATH")
 
 
 class Tok(tuple):
@@ -176,7 +177,9 @@ def ref_consume_macro_params(stream: list, stack: list) -> tuple:
     return ("token", (("Token", kind), string, start, end, line)), call_macro, list(stack), consumed
 
 
-ALPHABET = (("NAME", "a"), ("OP", ","), ("OP", ")"), ("OP", "("), ("OP", "["), ("OP", "]"), ("WS", " "), ("NL", "\n"), ("OP", "$("))
+# (a delimiter's *text* inside a token of another kind — the literal part of an f-string — is not a delimiter)
+ALPHABET = (("NAME", "a"), ("OP", ","), ("OP", ")"), ("OP", "("), ("OP", "["), ("OP", "]"), ("WS", " "), ("NL", "\n"), ("OP", "$("),
+            ("FSTRING_MIDDLE", ","), ("FSTRING_MIDDLE", ")"), ("FSTRING_MIDDLE", "("))
 
 
 @functools.lru_cache(None)
